@@ -183,7 +183,7 @@ func runWire(w *world, j *judge, cs childSpec) error {
 	for _, p := range ps {
 		for k := 0; k < per; k++ {
 			t := vlib.Pick(r, targets...)
-			mv := vlib.Pick(r, methodVars[:13]...)
+			mv := vlib.Pick(r, append(append([]methodVar{}, methodVars[:13]...), methodVars[15:]...)...)
 			origin := ""
 			if r.Chance(1, 6) {
 				origin = vlib.Pick(r, "http://evil.example", "http://"+testHost, "chrome-extension://abcdefghijklmnop", "null")
